@@ -132,14 +132,14 @@ struct Main {
 
 fn arm(domain: &str, mode: &str, n: usize) {
     match domain {
-        "kv" => krill::verif::kvfault::arm(n, if mode == "crash" { krill::verif::kvfault::Mode::Crash } else { krill::verif::kvfault::Mode::Once }),
+        "kv" | "kvcold" => krill::verif::kvfault::arm(n, if mode == "crash" { krill::verif::kvfault::Mode::Crash } else { krill::verif::kvfault::Mode::Once }),
         _ => if mode == "crash" { krill::verif::fault::arm(n) } else { krill::verif::fault::arm_once(n) },
     }
 }
 
 fn disarm(domain: &str) -> usize {
     match domain {
-        "kv" => krill::verif::kvfault::disarm(),
+        "kv" | "kvcold" => krill::verif::kvfault::disarm(),
         _ => if krill::verif::fault::disarm() { 1 } else { 0 },
     }
 }
@@ -157,6 +157,12 @@ fn dry_run(m: &Main, domain: &str, op: &str, with_pump: bool) -> Dry {
     let f = fork(m.sys.scratch(), "fault-dry");
     let mut s = sys::Sys::open(f, true, "dry-disk", &m.cfg, false);
     let _ = obs_json(&mut s); // prime seen_cmds/canon
+    let (op, stale) = match op.split_once(" ;; ") { Some((t, st)) => (t, Some(st)), None => (op, None) };
+    if let Some(st) = stale {
+        let w: Vec<&str> = st.split_whitespace().collect();
+        let _ = s.run_op(&w);
+        let _ = s.new_cmds_pub();
+    }
     krill::verif::kvfault::start_recording();
     krill::verif::fault::start_recording();
     let (_, o) = s.exec(op);
@@ -171,7 +177,7 @@ fn dry_run(m: &Main, domain: &str, op: &str, with_pump: bool) -> Dry {
     krill::verif::kvfault::stop_recording();
     krill::verif::fault::stop_recording();
     let root = s.scratch().path().display().to_string();
-    let muts: Vec<String> = if domain == "kv" {
+    let muts: Vec<String> = if domain == "kv" || domain == "kvcold" {
         kv.iter().map(|(k, w)| format!("{k}:{}", canon_path(&w.replace(&root, ""))) ).collect()
     } else {
         // file-system mutations keep their numbers: the serial directories are what the order model is about
@@ -208,9 +214,21 @@ fn ret_of(o: &Value) -> String {
 }
 
 fn fault_line(m: &mut Main, mode: &str, domain: &str, which: &str, op: &str, out: &mut dyn Write, rng: &mut Rng) {
+    let full_op = op;
+    let (op, stale) = match op.split_once(" ;; ") { Some((t, st)) => (t, Some(st)), None => (op, None) };
     let ents = entity_of(op);
-    let before = obs_json(&mut m.sys);
-    let dry = dry_run(m, domain, op, true);
+    let before = match stale {
+        None => obs_json(&mut m.sys),
+        Some(st) => {
+            // the state "before" is the one after the earlier op
+            let f = fork(m.sys.scratch(), "fault-before");
+            let mut s = sys::Sys::open(f, true, "before-disk", &m.cfg, false);
+            let _ = obs_json(&mut s);
+            s.exec(st);
+            obs_json(&mut s)
+        }
+    };
+    let dry = dry_run(m, domain, full_op, true);
     let muts = &dry.muts;
     let cuts: Vec<usize> = match which {
         "all" => (0..muts.len()).collect(),
@@ -235,6 +253,13 @@ fn fault_line(m: &mut Main, mode: &str, domain: &str, which: &str, op: &str, out
         let f = fork(m.sys.scratch(), "fault-cut");
         let mut s = sys::Sys::open(f, true, "cut-disk", &m.cfg, false);
         let _ = obs_json(&mut s);
+        if let Some(st) = stale {
+            // an accepted command right before the operation, with no read in between: the
+            // aggregate cache lags one command behind when the operation starts
+            let w: Vec<&str> = st.split_whitespace().collect();
+            let _ = s.run_op(&w);
+            let _ = s.new_cmds_pub();
+        }
         krill::verif::sched::take_exits();
         arm(domain, mode, n);
         let (_, o1) = s.exec(op);
@@ -314,7 +339,7 @@ fn fault_line(m: &mut Main, mode: &str, domain: &str, which: &str, op: &str, out
         ).into_iter().filter(|p| p != "no-notification").collect();
         let same = fin == dry.twin;
         let diff = if same { Value::Null } else { json!(first_diff(&dry.twin, &fin, "")) };
-        let line = format!("faultcut {mode} {domain} {n} :: {op}");
+        let line = format!("faultcut {mode} {domain} {n} :: {full_op}");
         let obs = json!({
             "muts": muts, "cut": n, "fired": fired, "failed": failed, "sched_exits": sched_exits, "restarted": restarted,
             "ret": ret1, "twin_ret": dry.ret, "load_problems": problems, "ents": ent_rep,
@@ -351,6 +376,9 @@ fn run_case(id: &str, ops: &[String], cfg0: &HashMap<String, String>, out: &mut 
             let (spec, target) = rest.split_once(" :: ").expect("fault spec :: op");
             let w: Vec<&str> = spec.split_whitespace().collect();
             fault_line(&mut m, w[0], w[1], w[2], target, out, rng);
+            // `<op> ;; <earlier op>`: the earlier op runs right before the target without any read in between
+            let (target, stale) = match target.split_once(" ;; ") { Some((t, st)) => (t, Some(st)), None => (target, None) };
+            if let Some(st) = stale { m.sys.exec(st); }
             let (line, obs) = m.sys.exec(target);
             let v: Value = serde_json::from_str(&obs).unwrap_or(Value::Null);
             writeln!(out, "{line} => {}", json!({"ret": v.get("ret")})).unwrap();
